@@ -34,6 +34,9 @@ SEVENTH ROUND NOTE: many attempts have been made already (direct ones, caches, t
     8: """
 EIGHTH ROUND NOTE: a great many attempts have been made already. Assume a thorough suite: exhaustive small inputs; ladders of sizes, nesting depths and call depths; aliased and shared heap objects; values produced in different ways; sessions that continue after errors and failed calls; heaps pre-loaded with tens of thousands of values; padded sources, CRLF line endings, invisible characters; stdin delivered in chunks; output files that already exist. Find what is STILL open. Suggestions: break a SECONDARY clause of the statement rather than its headline; break the property only on a path that is rarely driven - the code of the WASM bindings themselves in blots-wasm/src/lib.rs (evaluate / format_blots / tokenize / evaluate_inline_expressions: input conversion, output collection, position mapping), the `#name` input-reference syntax, `constants`, record spread and shorthand, optional parameters that receive an explicit null, operators applied to function values, string * list mixtures, the `print` / `time_now` built-ins, output declarations of names bound earlier; or make two features interfere that have no reason to meet. Keep it realistic and small; state the exact trigger in notes.md; read the code first and list at least four candidate places before choosing.
 """,
+    9: """
+NINTH ROUND NOTE: a great many attempts have been made already (direct slips, caches, thresholds, Unicode classes, read-buffer boundaries, sequences, provenance of values, secondary clauses, rarely driven entry points incl. the WASM bindings source and the interactive mode on a terminal). Assume a very thorough suite. What is still most likely open is the class of REFACTORINGS THAT LOOK LIKE NO-OPS: replacing a piece of code by a library call or idiom that is equivalent except at an edge. Examples of the kind (do not feel bound to them): `%` vs `rem_euclid`; `sort_by` vs `sort_unstable_by` (stability); `partial_cmp().unwrap_or(Equal)` vs `total_cmp`; `f64::max/min` (NaN-ignoring) vs a comparison chain; `a * b + c` vs `mul_add`; `powi` vs `powf`; `round` vs `round_ties_even`; `as i64` / `as usize` / `as u32` conversions that saturate or truncate; `trim` vs `trim_matches(' ')`; `to_lowercase` vs `to_ascii_lowercase`; `chars().count()` vs `len()`; `split_whitespace` vs `split(' ')`; `lines()` vs `split('\\n')`; `==` on f64 vs on bits; `IndexMap::remove` (swap_remove) vs `shift_remove`; `extend` vs `insert` precedence for duplicate keys; `Rc::ptr_eq` shortcuts before a structural comparison; `iter().rev()` on chars vs on bytes; `HashMap` vs `IndexMap` iteration order; collecting into a `BTreeMap` (sorted) where insertion order mattered; `clone()` of an `Rc` vs of the value behind it; short-circuit `&&`/`||` that skips a needed side effect or error; hoisting a check out of a loop so that it no longer runs for an empty collection; merging two match arms that differ only for one variant. Read the anchored code, list in notes.md at least five such candidate rewrites with the exact edge at which each differs, and pick the one whose edge is the hardest to hit by systematic exploration of small and medium inputs but still within the quantified space of the property. The diff must read like a clean-up.
+""",
 }
 text = f"""You are helping to evaluate how well a verification suite detects regressions in the open-source project paul-russo/blots-lang (Blots: a small expression-oriented language written in Rust: pest grammar, tree-walking evaluator, formatter, CLI, WASM bindings).
 
